@@ -4,7 +4,10 @@ use serde::ser::SerializeStruct;
 use serde::{Deserialize, Deserializer, Serialize, Serializer};
 use std::fmt;
 use std::str::FromStr;
+#[cfg(not(pricelevel_verif))]
 use std::sync::atomic::{AtomicU64, AtomicUsize, Ordering};
+#[cfg(pricelevel_verif)]
+use {crate::verif_sync::{AtomicU64, AtomicUsize}, std::sync::atomic::Ordering};
 use std::time::{SystemTime, UNIX_EPOCH};
 
 /// Tracks performance statistics for a price level
